@@ -252,10 +252,12 @@ type faultStorage struct {
 	calls    int
 	killAt   int
 	killMode string
+	kinds    []byte // per mutating call: 'S'et, 'D'elete, 'C'lear
 }
 
-func (f *faultStorage) mutate(do func() error) error {
+func (f *faultStorage) mutate(kind byte, do func() error) error {
 	f.calls++
+	f.kinds = append(f.kinds, kind)
 	if f.killAt > 0 && f.calls == f.killAt && f.killMode == "before" {
 		syscall.Kill(os.Getpid(), syscall.SIGKILL)
 		select {}
@@ -269,11 +271,11 @@ func (f *faultStorage) mutate(do func() error) error {
 }
 
 func (f *faultStorage) Delete(key *ds.Key) error {
-	return f.mutate(func() error { return f.Storage.Delete(key) })
+	return f.mutate('D', func() error { return f.Storage.Delete(key) })
 }
 
 func (f *faultStorage) Clear() error {
-	return f.mutate(func() error { return f.Storage.Clear() })
+	return f.mutate('C', func() error { return f.Storage.Clear() })
 }
 
 var errInjected = fmt.Errorf("injected storage failure")
@@ -283,7 +285,7 @@ func (f *faultStorage) Set(key *ds.Key, value ds.Value) error {
 		f.fail--
 		return errInjected
 	}
-	return f.mutate(func() error { return f.Storage.Set(key, value) })
+	return f.mutate('S', func() error { return f.Storage.Set(key, value) })
 }
 
 func (st *state) cur() *instance { return st.inst[st.current] }
@@ -369,7 +371,7 @@ func (st *state) apiOp(toks []string) (out string, annot string) {
 		st.cur().fault.killMode = toks[2]
 		return "ok", ""
 	case "storecalls":
-		return fmt.Sprintf("calls=%d", st.cur().fault.calls), ""
+		return fmt.Sprintf("calls=%d kinds=%s", st.cur().fault.calls, string(st.cur().fault.kinds)), ""
 	case "failset": // the next n backend writes fail
 		k, _ := strconv.Atoi(toks[1])
 		st.cur().fault.fail = k
